@@ -48,7 +48,8 @@ func sinfulStrs(i addresses.SinfulInfo, err error) []string {
 }
 
 var textFns = []string{"claim_strict", "attrs", "secinfo", "claim", "private_inherit", "inherit", "import_claim",
-	"htcondor_addr", "sinful", "ccb_contact", "sp_id", "version", "sp_header", "watch_request", "watch_header"}
+	"htcondor_addr", "sinful", "ccb_contact", "sp_id", "version", "sp_header", "watch_request", "watch_header",
+	"broker_list", "flat_contact"}
 
 type countReader struct {
 	r *bytes.Reader
@@ -92,9 +93,8 @@ func runText(tc *textCase) (textRes, []failure) {
 		case "import_claim":
 			_, err := security.ImportClaimSession(security.NewSessionCache(), s, security.ClaimSessionOptions{PeerAddr: "<10.0.0.1:9618>", ExtraValidCommands: []int{442}})
 			return nil, false, err
-		case "htcondor_addr":
-			i := addresses.ParseHTCondorAddress(s)
-			_ = addresses.IsValidSharedPortID(i.SharedPortID)
+		case "htcondor_addr", "sp_id", "ccb_contact", "broker_list", "flat_contact", "contact_string":
+			res.strs, extra = runAddr(tc.Fn, tc.In)
 		case "sinful":
 			i, err := addresses.ParseSinful(s)
 			_, _ = i.IsCCB(), i.IsSharedPort()
@@ -104,15 +104,10 @@ func runText(tc *textCase) (textRes, []failure) {
 				extra = append(extra, failure{"accounting", "ParseSinful: Raw differs from the input"})
 			}
 			return nil, false, nil
-		case "ccb_contact":
-			b, _, _ := addresses.SplitCCBContact(s)
-			_ = addresses.BrokerIsCCB(b)
 		case "parse_expr":
 			_ = message.VerifParseAndInsertExpression(classad.New(), s)
 		case "old_string":
 			_, _ = message.VerifDecodeOldClassAdString(s)
-		case "sp_id":
-			_ = addresses.IsValidSharedPortID(s)
 		case "version":
 			v, ok := version.Parse(s)
 			al := false
@@ -271,7 +266,9 @@ func addTextCase(c *core.Ctx, fn string, in []byte) {
 			c.Nontrivial("sinful|" + string(in))
 		}
 	default:
-		c.Evaluated(1)
+		if !addAddrCase(c, fn, in, res, tc) {
+			c.Evaluated(1)
+		}
 	}
 }
 
